@@ -134,6 +134,8 @@ mutual
     | trapSig (body : List Item)           -- `trap '…' USR1`
     | raise (n : Nat)                      -- `st n $(kill -s USR1 $$)`: a regular command during which
                                            -- the (main) shell receives the trapped signal
+    | raiseErr                             -- `st 0 $(kill -s USR1 $$) ${u?}`: the signal, then an
+                                           -- expansion error in the same command
   inductive Pipeline where
     | mk (negation : Bool) (commands : List Cmd)
   inductive Item where
@@ -346,6 +348,7 @@ mutual
       | .trapExit body => finishSimple { s with exitTrap := some body, status := 0 } .continue_
       | .trapSig body => finishSimple { s with sigTrap := some body, status := 0 } .continue_
       | .raise n => finishSimple { s with pending := true, status := n } .continue_
+      | .raiseErr => ({ s with pending := true }, { s with pending := true }.expansionError)
       | .group body => execList fuel s body
       | .subshell body =>
         -- the child runs on a copy with a `Subshell` frame; only status and output come back
